@@ -468,6 +468,15 @@ def tie(ctx):
                         viol(k, "setter %s changed the value of %s on %s" % (f, g, sch),
                              ["get %s %s" % (tt, g), "before: " + before[(tt, g)][:300], "after:  " + val[:300]])
                         break
+                elif res.startswith("throw"):
+                    # a call that threw has set nothing: every getter (its own included) and the snapshot of the
+                    # track still answer what they answered before
+                    hist["threw_unchanged_checks"] = hist.get("threw_unchanged_checks", 0) + 1
+                    if before[(tt, g)] != val:
+                        viol(k, "setter %s threw (%s) but changed %s of its track on %s"
+                             % (f, res.split()[1] if len(res.split()) > 1 else "?", g, sch),
+                             ["get/snap %s %s" % (tt, g), "before: " + before[(tt, g)][:300], "after:  " + val[:300]])
+                        break
         # "each getter returns the value last set for its field" over the whole history (v1_C06_value_last_set):
         # the normalised value of the last accepted call on (track, field) must be what the getter answers after
         # EVERY later step, until an accepted call on the same or an overlapping field of that track (or its removal)
